@@ -63,7 +63,7 @@ def check_case(case, tier='quick', prop=ID):
             res.add(viol('extra_architecture', f'decisions={leaf["decisions"]} nodes={sorted(key[0])} sel={key[1]} '
                                                f'incompatible_pairs_inside={bad}',
                          data={'nodes': sorted(key[0]), 'sel': [list(e) for e, _ in key[1]], 'pairs_inside': bad}))
-        if len(res.violations) > 6:
+        if len(res.violations) > 40:
             break
     missing = [k for k in ref if k not in feasible_idents]
     for k in missing[:2]:
